@@ -510,11 +510,9 @@ class Beam(_Simu):
 
         u = results["displacement"]
 
-        if (
-            self.algo in AlgoType.Get_Hyperbolic_Types()
-            and "speed" in results
-            and "accel" in results
-        ):
+        # the iteration holds what the time scheme active when it was saved carried, whatever the
+        # scheme active now
+        if "speed" in results and "accel" in results:
             v = results["speed"]
             a = results["accel"]
         else:
